@@ -144,6 +144,24 @@ pub fn c04(tier: &str, seed: u64) -> Vec<Case> {
         let plain = match p.build_bytes_vec() { Ok(b) => b, Err(_) => { v.push(Case::oracle_only().fail("build-failed", "plain".into())); continue; } };
         let comp = match p.build_bytes_vec_compressed() { Ok(b) => b, Err(_) => { v.push(Case::oracle_only().fail("build-failed", "compressed".into())); continue; } };
         let ptxt = text::packet(&p);
+        // every call stands alone: a serialisation that was refused part-way (a LOC record of an unsupported version, after
+        // the header and some entries were produced; a writer that ran out of room) leaves nothing behind that the next
+        // call on this thread would emit
+        if i % 5 == 2 {
+            let mut bad = p.clone();
+            bad.answers.push(ResourceRecord::new(Name::new_unchecked("refused"), CLASS::IN, 1, rdata::RData::LOC(rdata::LOC { version: 1, size: 0, horizontal_precision: 0, vertical_precision: 0, latitude: 0, longitude: 0, altitude: 0 })));
+            let refused = (bad.build_bytes_vec().is_err(), bad.build_bytes_vec_compressed().is_err());
+            let mut small = [0u8; 13];
+            let _ = p.write_to(&mut &mut small[..]);
+            let mut c = Case::oracle_only().tag("after-refused-build");
+            if !refused.0 || !refused.1 { c = c.tag("not-refused"); }
+            let (again_p, again_c) = (p.build_bytes_vec().ok(), p.build_bytes_vec_compressed().ok());
+            let mut direct = Vec::new();
+            let _ = p.write_to(&mut direct);
+            if again_p.as_deref() != Some(&plain[..]) || direct != plain { c = c.fail("writer-differs", format!("build_bytes_vec after a refused serialisation on the same thread returns {} bytes, {} before", again_p.map(|b| b.len()).unwrap_or(0), plain.len())); }
+            else if again_c.as_deref() != Some(&comp[..]) { c = c.fail("writer-differs", "build_bytes_vec_compressed after a refused serialisation on the same thread returns other bytes than before".into()); }
+            v.push(c);
+        }
         // framing of both vector-returning entry points
         for (b, how) in [(&plain, "plain"), (&comp, "comp")] {
             let mut c = Case::oracle_only().tag(&format!("framing-{}", how)).tag(&tag);
@@ -335,7 +353,7 @@ pub fn c07(tier: &str, seed: u64) -> Vec<Case> {
     if !thorough {
         // the quick tier keeps the first 1800 small packets and every large one
         let mut k = 0;
-        all.retain(|(_, tag)| { k += 1; k <= 1800 || tag == "big" || tag == "many-names" || tag == "many-suffixes" || tag == "boundary-16383" });
+        all.retain(|(_, tag)| { k += 1; k <= 1800 || tag == "big" || tag == "many-names" || tag == "many-suffixes" || tag == "max-size" || tag == "boundary-16383" });
     }
     for (p, tag) in all {
         if tag == "nsec-unordered" { continue; }
